@@ -16,10 +16,11 @@ import (
 // execution every function falls back to the real one.
 
 type vtimer struct {
-	at   time.Duration
-	id   int
-	fire func()
-	done bool
+	at     time.Duration
+	id     int
+	fire   func()
+	done   bool
+	period time.Duration // > 0: a ticker, re-armed after it fires
 }
 
 //go:norace
@@ -35,11 +36,17 @@ func (e *Exec) addTimer(d time.Duration, fire func()) *vtimer {
 
 // advanceClock moves virtual time to the earliest pending timer and fires everything due.
 //
+// Tickers never run out, so they alone must not keep an execution alive: time moves on to
+// a tick only while some harness task is waiting for something other than Join (somebody
+// needs time to pass); when only workers of the code under test and joiners are left, the
+// pending ticks are ignored and the state counts as quiescent.
+//
 //go:norace
 func (e *Exec) advanceClock() bool {
+	ticks := e.harnessWaiting()
 	var min *vtimer
 	for _, t := range e.timers {
-		if t.done {
+		if t.done || (t.period > 0 && !ticks) {
 			continue
 		}
 		if min == nil || t.at < min.at || (t.at == min.at && t.id < min.id) {
@@ -53,14 +60,18 @@ func (e *Exec) advanceClock() bool {
 	for {
 		var next *vtimer
 		for _, t := range e.timers {
-			if !t.done && t.at <= e.vnow && (next == nil || t.at < next.at || (t.at == next.at && t.id < next.id)) {
+			if !t.done && !(t.period > 0 && !ticks) && t.at <= e.vnow && (next == nil || t.at < next.at || (t.at == next.at && t.id < next.id)) {
 				next = t
 			}
 		}
 		if next == nil {
 			break
 		}
-		next.done = true
+		if next.period > 0 {
+			next.at += next.period
+		} else {
+			next.done = true
+		}
 		next.fire()
 	}
 	live := e.timers[:0]
@@ -267,4 +278,116 @@ func (t *Timer) Reset(d time.Duration) bool {
 		t.arm(e, d)
 	}
 	return was
+}
+
+// harnessWaiting: is some unfinished harness task blocked on anything but Join?
+//
+//go:norace
+func (e *Exec) harnessWaiting() bool {
+	for i := 0; i < e.ntasks; i++ {
+		u := e.tasks[i]
+		if !u.done && !u.lib && u.opKind != OpJoin {
+			return true
+		}
+	}
+	return false
+}
+
+// Ticker mirrors *time.Ticker (C, Stop, Reset) in virtual time.
+type Ticker struct {
+	C    <-chan time.Time
+	real *time.Ticker
+	vt   *vtimer
+	ch   chan time.Time
+}
+
+//go:norace
+func (t *Ticker) arm(e *Exec, d time.Duration) {
+	if d <= 0 {
+		panic("non-positive interval for NewTicker")
+	}
+	ch := t.ch
+	t.vt = e.addTimer(d, func() {
+		select {
+		case ch <- time.Now():
+		default: // a slow receiver misses ticks, as with the real one
+		}
+	})
+	t.vt.period = d
+}
+
+// NewTicker is time.NewTicker in virtual time.
+//
+//go:norace
+func NewTicker(d time.Duration) *Ticker {
+	e := cur
+	if e == nil || e.aborted {
+		rt := time.NewTicker(d)
+		return &Ticker{C: rt.C, real: rt}
+	}
+	ch := make(chan time.Time, 1)
+	RegisterChan(ch)
+	t := &Ticker{C: ch, ch: ch}
+	t.arm(e, d)
+	return t
+}
+
+// Tick is time.Tick in virtual time.
+//
+//go:norace
+func Tick(d time.Duration) <-chan time.Time {
+	if d <= 0 {
+		return nil
+	}
+	return NewTicker(d).C
+}
+
+//go:norace
+func (t *Ticker) Stop() {
+	if t.real != nil {
+		t.real.Stop()
+		return
+	}
+	if t.vt != nil {
+		t.vt.done = true
+	}
+}
+
+//go:norace
+func (t *Ticker) Reset(d time.Duration) {
+	if t.real != nil {
+		t.real.Reset(d)
+		return
+	}
+	t.Stop()
+	if e := cur; e != nil && !e.aborted {
+		t.arm(e, d)
+	}
+}
+
+// CtxAfterFunc is context.AfterFunc under the scheduler: f runs as a task of its own once
+// ctx is done (the real one would start an uncontrolled goroutine). stop reports whether
+// it prevented f from being started.
+//
+//go:norace
+func CtxAfterFunc(ctx context.Context, f func()) (stop func() bool) {
+	e := cur
+	if e == nil || e.aborted {
+		return context.AfterFunc(ctx, f)
+	}
+	var state atomic.Int32 // 0 waiting, 1 started, 2 stopped
+	quit := make(chan struct{})
+	RegisterChan(quit)
+	GoLib(func() {
+		if Select(false, ctx.Done(), quit) == 0 && state.CompareAndSwap(0, 1) {
+			f()
+		}
+	})
+	return func() bool {
+		if !state.CompareAndSwap(0, 2) {
+			return false
+		}
+		Close(quit)
+		return true
+	}
 }
